@@ -6,6 +6,7 @@ CONSTANTS
   Rot4 = TRUE
   HistN = 2
   HistLen = 3
+  Deep = TRUE
   NB = 64
 INVARIANT SeqEqSim
 INVARIANT CodeEqDef
